@@ -96,8 +96,8 @@ Cmd(verb, slot, val) ==
 VerbFor(slot) ==
   CASE slot \in {"filter", "sort"} -> "find"
     [] slot = "query"     -> "count"
-    [] slot = "update"    -> "findAndModify"
-    [] slot \in {"updates", "q", "u"} -> "update"
+    [] slot \in {"update", "arrayFilters"} -> "findAndModify"
+    [] slot \in {"updates", "q", "u", "c"} -> "update"
     [] slot = "deletes"   -> "delete"
     [] slot = "documents" -> "insert"
     [] slot = "pipeline"  -> "aggregate"
